@@ -17,6 +17,13 @@ type leaf struct {
 	sort string
 }
 
+const (
+	fp64 = "(_ FloatingPoint 11 53)"
+	fp32 = "(_ FloatingPoint 8 24)"
+)
+
+func isFPSort(s string) bool { return s == fp64 || s == fp32 }
+
 func typeKey(t types.Type) string {
 	s := types.TypeString(t, func(p *types.Package) string { return p.Name() })
 	if b, ok := t.(*types.Basic); ok && b.Kind() <= types.UnsafePointer && b.Kind() > 0 {
@@ -43,7 +50,10 @@ func leaves(t types.Type) []leaf {
 		case u.Info()&types.IsInteger != 0:
 			return []leaf{{"", "Int"}}
 		case u.Info()&types.IsFloat != 0:
-			return []leaf{{"", "Flt"}}
+			if u.Kind() == types.Float32 {
+				return []leaf{{"", fp32}}
+			}
+			return []leaf{{"", fp64}}
 		case u.Kind() == types.UnsafePointer:
 			return []leaf{{"", "Ref"}}
 		case u.Kind() == types.UntypedNil:
@@ -110,8 +120,10 @@ func zeroOfSort(s string) string {
 		return "str!empty"
 	case "Ref":
 		return "null"
-	case "Flt":
-		return "flt!zero"
+	case fp64:
+		return "(_ +zero 11 53)"
+	case fp32:
+		return "(_ +zero 8 24)"
 	}
 	panic("zeroOfSort " + s)
 }
@@ -128,11 +140,9 @@ const prelude = `(set-option :produce-models true)
 (set-logic ALL)
 (declare-datatypes ((Ref 0)) (((null) (obj (oid Int)) (elem (ebase Ref) (eidx Int)) (emb (eobj Ref) (efld Int)) (box (bid Int)))))
 (declare-sort Str 0)
-(declare-sort Flt 0)
 (declare-fun slen (Str) Int)
 (declare-fun sat (Str Int) Int)
 (declare-const str!empty Str)
-(declare-const flt!zero Flt)
 (assert (= (slen str!empty) 0))
 (assert (forall ((s Str)) (! (and (>= (slen s) 0) (<= (slen s) 72057594037927936)) :pattern ((slen s)))))
 (assert (forall ((s Str) (i Int)) (! (and (>= (sat s i) 0) (< (sat s i) 256)) :pattern ((sat s i)))))
